@@ -103,6 +103,11 @@ func H_chain(id, t, w int) {
 	vChain(vParserByID(id), vTpl(t, w), 0)
 }
 
+// H_chainw: all schedules whose cuts lie in or after the symbolic window.
+func H_chainw(id, t, w int) {
+	vChainFrom(vParserByID(id), vTpl(t, w), 0, len(vTemplates[t].pre))
+}
+
 func H_premature(id, t, w int) {
 	vPremature(vParserByID(id), vTpl(t, w), 0)
 }
